@@ -250,7 +250,7 @@ def replay_main(pid: str, path: str) -> int:
     status, detail = replay_file(spec, path)
     if status == 'violation':
         print(f'VIOLATION property={pid} replay={path}')
-        print('  ' + detail)
+        print('  ' + detail[:700])
         return 1
     if status == 'error':
         print('HARNESS-ERROR during replay:\n' + detail)
